@@ -169,8 +169,22 @@ def batches(tier):
     return [1, 2, 5, 17] if tier == "thorough" else [1, 2, 5]
 
 
+# argument expressions (not just symbols): the generated code must not depend on how the
+# argument of a matrix class prints (operator precedence inside the code templates)
+ARG_EXPRS = {
+    "RotationYMatrix": ["x + y", "x - y", "-(x + y)", "asin(x + y)", "acos(x*y)", "2*x", "asin(x) - y"],
+    "RotationZMatrix": ["x + y", "x - y", "-(x + y)", "asin(x + y)", "acos(x*y)", "2*x", "asin(x) - y"],
+    "BoostZMatrix": ["x + y", "x - y", "-(x + y)/2", "x*y", "-x"],
+}
+
+
 def cases(tier, seed):
     out = []
+    for cls, exprs in ARG_EXPRS.items():
+        for expr in exprs:
+            for cse in (False, True):
+                out.append({"kind": "argexpr", "cls": cls, "expr": expr, "cse": cse,
+                            "tier": tier, "seed": seed})
     for item in _items(tier):
         for path in ("code", "explicit"):
             for cse in (False, True):
@@ -698,7 +712,52 @@ def has_boostmatrix(item):
     return bool(features(item) & {"B", "Bneg"})
 
 
+def _eval_argexpr(case):
+    """code generated for cls(<expression>, n).doit() == as_explicit() evaluated numerically."""
+    import numpy as np  # noqa: PLC0415
+    import sympy as sp  # noqa: PLC0415
+    from ampform.kinematics import lorentz  # noqa: PLC0415
+
+    from vp.util import irr  # noqa: PLC0415
+
+    x, y, n = sp.symbols("x y n")
+    arg = sp.sympify(case["expr"], locals={"x": x, "y": y})
+    cls = getattr(lorentz, case["cls"])
+    unfolded = cls(arg, n).doit()
+    f = sp.lambdify([x, y, n], unfolded, "numpy", cse=case["cse"])
+    explicit = sp.lambdify([x, y], cls(arg, n).as_explicit().doit(), "numpy")
+    seed = case.get("seed", 0)
+    pts = [(0.2 + 0.1 * irr(seed, 1), 0.3 + 0.1 * irr(seed, 2)), (-0.35, 0.15 + 0.1 * irr(seed, 3)),
+           (0.05, -0.6 + 0.1 * irr(seed, 4)), (0.41, 0.07)]
+    viol, n_eval, worst = [], 0, 0.0
+    head = f"X:{case['cls']}({case['expr']}) path=code cse={case['cse']}"
+    for xv, yv in pts:
+        try:
+            got = np.asarray(f(np.array([xv]), np.array([yv]), 1), dtype=complex)[0]
+        except Exception as exc:  # noqa: BLE001
+            viol.append({"msg": f"{head}: generated numpy code failed ({type(exc).__name__}: {exc})"[:300],
+                         "tags": ["codegen-exception", "argument-expression"], "detail": {"x": xv, "y": yv}})
+            break
+        want = np.asarray(explicit(xv, yv), dtype=complex)
+        n_eval += 1
+        if not (np.all(np.isfinite(want)) and np.all(np.isfinite(got))):
+            continue
+        dev = float(np.max(np.abs(got - want)))
+        worst = max(worst, dev)
+        if dev > 1e-12 * max(1.0, float(np.max(np.abs(want)))):
+            viol.append({"msg": f"{head}: oracle 'code=explicit' deviation {dev:.3g} at x={xv:.4g}, y={yv:.4g}",
+                         "tags": ["oracle:code=explicit", "argument-expression"],
+                         "detail": {"x": xv, "y": yv}})
+            break
+    return {"violations": viol, "evaluations": n_eval,
+            "nontrivial": [["argexpr", case["cls"], case["expr"], case["cse"]]],
+            "outcomes": {f"argexpr:code=explicit:{bucket(worst)}": 1},
+            "sample": {"case": head, "worst_deviation": worst}}
+
+
 def eval_case(case):  # noqa: C901, PLR0912, PLR0914, PLR0915
+    if case.get("kind") == "argexpr":
+        return _eval_argexpr(case)
     import numpy as np  # noqa: PLC0415
 
     from vp.ref import kin  # noqa: PLC0415
